@@ -262,6 +262,33 @@ def analyse_member_setter(body, container, var):
         if types and e and isinstance(f.iter, ast.Name) and f.iter.id == var and isinstance(f.target, ast.Name) \
                 and len(f.body) == 1 and reparent(f.body[0], f.target.id) and not f.orelse:
             return dict(kinds=kinds, kindErr=kerr, elemErr=e, atomic=True, types=types)
+    # loop-checked without copy: for o in value: if not isinstance(o, T): raise E; o.parent = self
+    if len(rest) == 1 and isinstance(rest[0], ast.For) and not rest[0].orelse:
+        f = rest[0]
+        if isinstance(f.iter, ast.Name) and f.iter.id == var and isinstance(f.target, ast.Name) and len(f.body) == 2 \
+                and isinstance(f.body[0], ast.If) and not f.body[0].orelse and len(f.body[0].body) == 1:
+            o = f.target.id
+            t = not_(f.body[0].test)
+            types = isinstance_call(t, o) if t is not None else None
+            e = raise_kind(f.body[0].body[0])
+            if types and e and reparent(f.body[1], o):
+                return dict(kinds=kinds, kindErr=kerr, elemErr=e, atomic=False, types=types)
+    # atomic, camera form: value = value.copy(); for d in value: if not isinstance(d, T): raise E
+    #                      for d in value: [slit bookkeeping]; d.parent = self
+    if len(rest) == 3 and isinstance(rest[0], ast.Assign) and isinstance(rest[1], ast.For) and isinstance(rest[2], ast.For) \
+            and not rest[1].orelse and not rest[2].orelse:
+        cp, chk, adopt = rest
+        okcopy = len(cp.targets) == 1 and isinstance(cp.targets[0], ast.Name) and cp.targets[0].id == var and isinstance(cp.value, ast.Call) \
+            and isinstance(cp.value.func, ast.Attribute) and cp.value.func.attr == 'copy' and isinstance(cp.value.func.value, ast.Name) \
+            and cp.value.func.value.id == var
+        if okcopy and all(isinstance(f.iter, ast.Name) and f.iter.id == var and isinstance(f.target, ast.Name) for f in (chk, adopt)) \
+                and len(chk.body) == 1 and isinstance(chk.body[0], ast.If) and not chk.body[0].orelse and len(chk.body[0].body) == 1 and adopt.body:
+            t = not_(chk.body[0].test)
+            types = isinstance_call(t, chk.target.id) if t is not None else None
+            e = raise_kind(chk.body[0].body[0])
+            o = adopt.target.id
+            if types and e and reparent(adopt.body[-1], o) and all(_slit_bookkeeping(st, o) for st in adopt.body[:-1]):
+                return dict(kinds=kinds, kindErr=kerr, elemErr=e, atomic=True, types=types)
     # loop-checked: value = value.copy(); for d in value: if not isinstance(d, T): raise E; [slit bookkeeping]; d.parent = self
     if len(rest) == 2 and isinstance(rest[0], ast.Assign) and isinstance(rest[1], ast.For) and not rest[1].orelse:
         cp = rest[0]
